@@ -24,7 +24,7 @@ Known finding re-derived here (Cython, solver.pyx): on NATURAL grids every multi
 order (upper layers are started at their first slice, one step above the interface, with the interface values).  Classifier:
 site `C03/grid-refinement/natural-grid-first-order` iff the planet has >= 2 layers, the N->2N and 2N->4N differences have
 ratio 2 +- 0.3, the N->2N difference is below 5e-2 and the SAME planet on the tight grid passes the tight-grid relation (N->2N
-difference <= 2e-4, 12x below the smallest natural-grid difference seen);
+difference <= 3e-4, 4x below the smallest natural-grid difference seen);
 every other refinement failure (single layer, tight grid, other ratio) gets a different site and is a fresh violation.
 """
 import math
@@ -57,9 +57,9 @@ TOL = {
     'nondim': 1e-5,
     'rescale': 1e-5,
     'solve_for': 1e-13,
-    'integrator': 1e-5,
-    'rtol': 1e-6,
-    'grid-tight': 2e-4,
+    'integrator': 3e-5,
+    'rtol': 3e-6,
+    'grid-tight': 3e-4,
     'grid-natural': 1e-4,
     'start-family': 1e-5,
     'saito-molodensky': 1e-5,
